@@ -35,6 +35,8 @@ func (c Call) String() string {
 		return fmt.Sprintf("AddTask(%s')", tid(c.A))
 	case "sort":
 		return "DepthFirstSort()"
+	case "validate":
+		return "Validate(nil)"
 	case "run":
 		return "Run()"
 	case "max":
@@ -46,26 +48,29 @@ func (c Call) String() string {
 
 // Scenario fixes everything but the schedule.
 type Scenario struct {
-	N          int        `json:"n"`
-	Hist       []Call     `json:"hist"`
-	Scripts    [][]string `json:"scripts"` // per task, result of each attempt: ok | err | skip (last repeats)
-	Mode       string     `json:"mode"`    // par | max1 | max2 | max3 | serial
-	Cancel     bool       `json:"cancel,omitempty"`
-	Buffer     bool       `json:"buffer,omitempty"`
-	BigOutput  bool       `json:"big_output,omitempty"`    // every task attempt writes more than 64 KiB
-	Shared     []int      `json:"shared,omitempty"`        // second graph run concurrently, made of these (shared) tasks, no edges
-	SharedMode string     `json:"shared_mode,omitempty"`   // mode of the second graph (par | serial)
-	Shared2    bool       `json:"shared2,omitempty"`       // the second graph is made of the second Task objects (the ones add2 hands to the first graph)
-	Rerun      bool       `json:"rerun,omitempty"`         // call Run a second time on the same graph
-	PctIDs     bool       `json:"percent_ids,omitempty"`   // task IDs and the graph name contain a percent sign
-	ErrsKind   int        `json:"errs_kind,omitempty"`     // the error a failing task returns is a *dag.Errors value (a sub-graph run as a task, a collected report): 1 = without entries, 2 = with one entry
-	ViaTask    bool       `json:"via_task,omitempty"`      // the second graph gets its shared tasks through g.Task(id) of the first one
-	TickerZero bool       `json:"ticker_zero,omitempty"`   // Graph.TickerDuration = 0
-	Literal    bool       `json:"literal_tasks,omitempty"` // tasks are struct literals &dag.Task{ID, Fn} instead of dag.NewTask results
-	SortOnly   bool       `json:"sort_only,omitempty"`     // the history (with its DepthFirstSort calls) is everything: no final Run
-	History    bool       `json:"history,omitempty"`       // construction-history scenario (C16a): edges are whatever the history declares
-	Canon      bool       `json:"canon,omitempty"`         // the graph is the representative of its isomorphism class
-	Light      int        `json:"light,omitempty"`         // larger graph: 1 = explored with at most one deviation in total, 2 = default schedule and all completion orders only
+	N            int        `json:"n"`
+	Hist         []Call     `json:"hist"`
+	Scripts      [][]string `json:"scripts"` // per task, result of each attempt: ok | err | skip (last repeats)
+	Mode         string     `json:"mode"`    // par | max1 | max2 | max3 | serial
+	Cancel       bool       `json:"cancel,omitempty"`
+	Buffer       bool       `json:"buffer,omitempty"`
+	SharedWriter bool       `json:"shared_writer,omitempty"` // the second graph buffers its output too and writes to the same writer; the writer takes each Write as a whole
+	WriterFails  bool       `json:"writer_fails,omitempty"`  // the writer given to SetOutputBuffer takes nothing and reports an error for every Write (closed pipe, full disk)
+	BigOutput    bool       `json:"big_output,omitempty"`    // every task attempt writes more than 64 KiB
+	Shared       []int      `json:"shared,omitempty"`        // second graph run concurrently, made of these (shared) tasks, no edges
+	SharedMode   string     `json:"shared_mode,omitempty"`   // mode of the second graph (par | serial)
+	Shared2      bool       `json:"shared2,omitempty"`       // the second graph is made of the second Task objects (the ones add2 hands to the first graph)
+	Rerun        bool       `json:"rerun,omitempty"`         // call Run a second time on the same graph
+	PctIDs       bool       `json:"percent_ids,omitempty"`   // task IDs and the graph name contain a percent sign
+	ErrsKind     int        `json:"errs_kind,omitempty"`     // the error a failing task returns is a *dag.Errors value (a sub-graph run as a task, a collected report): 1 = without entries, 2 = with one entry
+	ViaTask      bool       `json:"via_task,omitempty"`      // the second graph gets its shared tasks through g.Task(id) of the first one
+	TickerZero   bool       `json:"ticker_zero,omitempty"`   // Graph.TickerDuration = 0
+	NoAdd        bool       `json:"no_add,omitempty"`        // (documentation only) vertices are created by the TaskDependsOn calls that mention them, not by AddTask
+	Literal      bool       `json:"literal_tasks,omitempty"` // tasks are struct literals &dag.Task{ID, Fn} instead of dag.NewTask results
+	SortOnly     bool       `json:"sort_only,omitempty"`     // the history (with its DepthFirstSort calls) is everything: no final Run
+	History      bool       `json:"history,omitempty"`       // construction-history scenario (C16a): edges are whatever the history declares
+	Canon        bool       `json:"canon,omitempty"`         // the graph is the representative of its isomorphism class
+	Light        int        `json:"light,omitempty"`         // larger graph: 1 = explored with at most one deviation in total, 2 = default schedule and all completion orders only
 }
 
 func tid(i int) string { return string(rune('a' + i)) }
@@ -94,6 +99,12 @@ func (sc *Scenario) String() string {
 	}
 	if sc.Buffer {
 		s += " buffer"
+	}
+	if sc.WriterFails {
+		s += " (the output writer always fails)"
+	}
+	if sc.SharedWriter {
+		s += " (both graphs buffer and write to the same writer)"
 	}
 	if len(sc.Shared) > 0 {
 		s += fmt.Sprintf(" shared=%v/%s", sc.Shared, sc.SharedMode)
@@ -366,6 +377,15 @@ type outWriter struct{ r *run }
 func (w *outWriter) Write(p []byte) (int, error) {
 	r := w.r
 	r.cnt.Flushes++
+	if r.sc.WriterFails {
+		return 0, errors.New("write failed: no space left on device")
+	}
+	if r.sc.SharedWriter {
+		// a writer that is safe for concurrent use: each Write lands as a whole, another producer can come in between two
+		verifrt.Yield()
+		r.out = append(r.out, p...)
+		return len(p), nil
+	}
 	h := len(p) / 2
 	r.out = append(r.out, p[:h]...)
 	verifrt.Yield()
@@ -599,6 +619,10 @@ func (r *run) body(i int, ctx context.Context) error {
 	if ctxErr {
 		rec.result = "err"
 	}
+	skipErr := rec.result == "tskip" // an error of the task's own that wraps the exported dag.ErrorTaskSkipped: a failure like any other
+	if skipErr {
+		rec.result = "err"
+	}
 	rec.exited = true
 	r.running[i]--
 	r.runningG[g]--
@@ -623,6 +647,9 @@ func (r *run) body(i int, ctx context.Context) error {
 		}
 		if ctxErr {
 			return fmt.Errorf("%w: %w", r.sentinel[i], context.DeadlineExceeded)
+		}
+		if skipErr {
+			return fmt.Errorf("%w: nothing to do: %w", r.sentinel[i], dag.ErrorTaskSkipped)
 		}
 		if ctxWrap && ctx.Err() != nil {
 			return fmt.Errorf("%w: interrupted: %w", r.sentinel[i], ctx.Err())
@@ -773,6 +800,8 @@ func (r *run) main() {
 		case "sort":
 			r.m = declared(&Scenario{N: sc.N, Hist: sc.Hist[:idx]})
 			r.checkSort(g)
+		case "validate":
+			_ = g.Validate(nil) // a look at the definition errors collected so far: changes nothing
 		case "run":
 			r.m = declared(&Scenario{N: sc.N, Hist: sc.Hist[:idx]})
 			r.startRun()
@@ -789,6 +818,9 @@ func (r *run) main() {
 		g2 := dag.NewGraph("g2")
 		if sc.SharedMode == "serial" {
 			g2.SetSerial()
+		}
+		if sc.SharedWriter && w != nil {
+			g2.SetOutputBuffer(w)
 		}
 		for _, t := range sc.Shared {
 			switch {
@@ -1033,6 +1065,10 @@ func (r *run) final(res *verifrt.Result) {
 				// judged at enter time
 				return
 			}
+			if strings.Contains(res.Detail, "spins without ever yielding") {
+				r.fail("C16", "Run does not finish: %s", res.Detail)
+				return
+			}
 			r.fail("*", "panic: %s", res.Detail)
 			return
 		case res.Status == verifrt.StatusDiverged:
@@ -1207,7 +1243,13 @@ func (r *run) final(res *verifrt.Result) {
 	nSkippedEntries := 0
 	if isErrs {
 		for _, e := range errs.Errors {
-			if errors.Is(e, dag.ErrorTaskSkipped) {
+			own := false // the entry of a task whose own error happens to wrap the exported sentinel is not a skip report
+			for t := 0; t < sc.N; t++ {
+				if errors.Is(e, r.sentinel[t]) {
+					own = true
+				}
+			}
+			if errors.Is(e, dag.ErrorTaskSkipped) && !own {
 				nSkippedEntries++
 			}
 		}
@@ -1246,10 +1288,14 @@ func (r *run) final(res *verifrt.Result) {
 	}
 
 	// ---- buffered output (C15)
-	if sc.Buffer {
+	if sc.Buffer && !sc.WriterFails {
 		out := string(r.out)
 		for t := 0; t < sc.N; t++ {
-			for _, a := range r.attemptsOf(t, 0) {
+			as := r.attemptsOf(t, 0)
+			if sc.SharedWriter {
+				as = append(append([]*attemptRec{}, as...), r.attemptsOf(t, 1)...)
+			}
+			for _, a := range as {
 				want := fmt.Sprintf("<%s%d.1><%s%d.2>", tid(t), a.attempt, tid(t), a.attempt)
 				if sc.BigOutput {
 					want = fmt.Sprintf("<%s%d.1>%s%s<%s%d.2>", tid(t), a.attempt, bigFiller, bigFiller, tid(t), a.attempt)
